@@ -2045,3 +2045,83 @@ func TestWireMulticastMembers(t *testing.T) {
 	}
 	evid.Class("wire witness: multicast members leave / stream ends / replaced stream")
 }
+
+// TestWireMulticastRestart is the deterministic witness for a multicast proxy
+// that is stopped and started again: member A leaves (last member: the proxy
+// stops its consumption), A's old delivery goroutine is held where it has just
+// been woken by the stop (media schedule point consume.after-pop), member B joins
+// (the proxy starts a new consumption), the old goroutine goes on and, on its
+// way out, closes "its" consumer. B is not part of what ended: it must stay
+// connected and keep receiving, and the stream must keep its proxy consumer.
+func TestWireMulticastRestart(t *testing.T) {
+	if !wireMulticast() {
+		evid.Class("wire: multicast unavailable - multicast-proxy members skipped")
+		t.Skip("multicast unavailable on this host")
+	}
+	s := srv.Start(srv.Options{})
+	for _, how := range []string{"teardown", "disconnect"} {
+		evid.Eval(1)
+		w := &wworld{t: t, s: s, pl: &wplan{Publisher: "record"}, path: fmt.Sprintf("/c03w/r%d", atomic.AddUint64(&wireCases, 1)), sdp: mediah.SDP(esgen.H264, false)}
+		g := w.newGen("record")
+		a := w.attach("mcast", true)
+		w.checkCounts("the first member attached")
+		w.flows(0, "the first member attached")
+		// from now on the stream is silent: the next wake-up of the proxy's delivery
+		// goroutine is the one caused by stopping it
+		var armed int32 = 1
+		var old atomic.Value
+		release := make(chan struct{})
+		heldCh := make(chan struct{}, 1)
+		media.VerifSetSched(func(point string, obj interface{}) {
+			if point != "consume.after-pop" || media.VerifConsumptionStream(obj) != g.st {
+				return
+			}
+			if atomic.CompareAndSwapInt32(&armed, 1, 2) {
+				old.Store(obj)
+				heldCh <- struct{}{}
+				<-release
+			}
+		})
+		finish := func() {
+			select {
+			case <-release:
+			default:
+				close(release)
+			}
+			media.VerifSetSched(nil)
+		}
+		a.stopped = true
+		w.note("%s stopped by %s", a, how)
+		if how == "teardown" {
+			a.teardown(s, w.path)
+		}
+		a.disconnect()
+		select {
+		case <-heldCh:
+		case <-time.After(wireBound()):
+			finish()
+			t.Fatalf("machinery: the proxy's delivery goroutine was not woken within %v after the last member left", wireBound())
+		}
+		// the proxy has stopped (consumer count 0) while its old goroutine is still on its way out
+		if !srv.WaitFor(wireBound(), func() bool { return g.st.ConsumerCount() == 0 }) {
+			finish()
+			evid.Violation(t, "wire-consumer-count", w.detail(nil), "the last multicast member left and the stream still reports %d consumers after %v", g.st.ConsumerCount(), wireBound())
+		}
+		b := w.attach("mcast", true)
+		w.checkCounts("a new member joined the stopped proxy")
+		w.flows(0, "a new member joined the stopped proxy")
+		finish() // the old goroutine winds down now
+		time.Sleep(20 * time.Millisecond)
+		w.checkCounts("the old delivery goroutine of the proxy ended")
+		w.stillOpen("the old delivery goroutine of the proxy ended")
+		w.flows(0, "the old delivery goroutine of the proxy ended")
+		_ = b
+		w.end(g, "publisher")
+		w.released(0, "publisher")
+		for _, c := range w.clients {
+			c.disconnect()
+		}
+		srv.WaitFor(wireBound(), func() bool { return media.Get(w.path) == nil })
+	}
+	evid.Class("wire witness: multicast proxy restarted while its old delivery goroutine winds down")
+}
